@@ -100,8 +100,10 @@ func c17Call(codec string, limit int, carry, data []byte, sched []int, eofwd boo
 	return fmt.Sprintf("%s %d %s %s %s", hx(dst), n, errClass(err), hx(data[r.pos:]), ints(r.trace))
 }
 
-// c17Seq runs the caller protocol: carry := dst[n:], until an error.
-func c17Seq(codec string, limit int, data []byte, sched []int, eofwd bool) (obs string) {
+// c17Seq runs the caller protocol: carry := dst[n:], until an error. With reuse the caller keeps one
+// buffer for the whole stream, as larking's pooled buffers are kept (capacity grows with the largest
+// message so far); without, every call starts from a buffer that just fits the carried-over bytes.
+func c17Seq(codec string, limit int, data []byte, sched []int, eofwd bool, reuse bool) (obs string) {
 	r := &scriptedReader{data: data, sched: sched, eofWithData: eofwd}
 	var msgs [][]byte
 	defer func() {
@@ -110,13 +112,19 @@ func c17Seq(codec string, limit int, data []byte, sched []int, eofwd bool) (obs 
 		}
 	}()
 	c := codecOf(codec)
-	var carry []byte
+	var carry, buf []byte
 	for iter := 0; ; iter++ {
 		if iter > len(data)+2 {
 			return fmt.Sprintf("%s noprogress", hxs(msgs))
 		}
 		b := append([]byte(nil), carry...)
+		if reuse {
+			b = append(buf[:0], carry...)
+		}
 		dst, n, err := c.ReadNext(b, r, limit)
+		if reuse && cap(dst) > cap(buf) {
+			buf = dst
+		}
 		if n < 0 || n > len(dst) {
 			return fmt.Sprintf("%s badn", hxs(msgs))
 		}
@@ -147,7 +155,7 @@ func c17Run(o *out, input string) {
 	case "C17":
 		o.emit(input, c17Call(f[1], atoi(f[2]), unhx(f[3]), unhx(f[4]), unints(f[5]), f[6] == "1"))
 	case "C17S":
-		o.emit(input, c17Seq(f[1], atoi(f[2]), unhx(f[3]), unints(f[4]), f[5] == "1"))
+		o.emit(input, c17Seq(f[1], atoi(f[2]), unhx(f[3]), unints(f[4]), f[5] == "1", len(f) > 6 && f[6] == "R"))
 	default:
 		panic("bad C17 case " + input)
 	}
@@ -223,6 +231,37 @@ func c17Gen(o *out, r *rng, tier string) {
 		}
 	}
 
+	// one buffer kept for a whole stream of messages of very different sizes (the capacity left over
+	// from a large message meets a medium one that is only partly buffered)
+	seqR := func(codec string, limit int, data []byte, sched []int, eofwd bool) {
+		o.count("seq/" + codec + "/reused-buffer")
+		c17Run(o, fmt.Sprintf("C17S %s %d %s %s %d R", codec, limit, hx(data), ints(sched), b2i(eofwd)))
+	}
+	for _, codec := range []string{"p", "j"} {
+		for _, sizes := range [][]int{{10, 2040, 3000, 5, 4000}, {1200, 1700, 2300, 40, 2900, 3600}, {64, 100, 129, 257, 600, 1025, 1300, 2047, 2049}} {
+			var ms [][]byte
+			for i, n := range sizes {
+				if codec == "j" {
+					ms = append(ms, []byte(`{"text":"`+strings.Repeat(string(rune('a'+i)), n)+`"}`))
+				} else {
+					ms = append(ms, append([]byte{0x12, byte(n&0x7f | 0x80), byte(n >> 7)}, []byte(strings.Repeat(string(rune('a'+i)), n))...))
+				}
+			}
+			L := writeAll(codec, ms)
+			seqR(codec, 1<<20, L, nil, false)
+			seqR(codec, 1<<20, L, []int{len(L) / 2, len(L)}, true)
+			for si, step := range []int{512, 1000, 1024, 1500, 7, 1} {
+				if si >= 4 && (len(L) > 11000 || tier != "thorough") {
+					continue // the byte-at-a-time schedules of long streams are slow in the extracted model
+				}
+				var sch []int
+				for k := 0; k < len(L); k += step {
+					sch = append(sch, step)
+				}
+				seqR(codec, 1<<20, L, sch, step%2 == 1)
+			}
+		}
+	}
 	// ---- protobuf ----
 	mk := func(n int, fill byte) []byte {
 		b := make([]byte, n)
